@@ -1,5 +1,221 @@
-"""C07 -- geodesy (work in progress: shared contracts only)."""
+"""C07 -- geodesy: coordinate conversions and distances (typhon/geodesy.py)."""
+import numpy as _np
 from pyvc.dsl import *
 from contracts.geodesy_shared import *
+from typhon import geodesy as G
+from typhon import constants
 
 P = "C07"
+GM = "typhon.geodesy:"
+NOT_DECIDED = [
+    "accuracy (1 cm / 1e-7 deg) and termination of the fixed-point iteration of cart2geodetic for eccentric ellipsoids (WGS84, EllipsoidMars): a convergence statement",
+    "triangle inequality of great_circle_distance / tunnel_distance (a theorem of spherical geometry)",
+    "position + line-of-sight conversions (geocentricposlos2cart / cartposlos2geocentric): 3-d trigonometry with special cases",
+    "distance zero ONLY for coincident points (converse direction)",
+    "anything 'to better than 1 cm' in float64 (A2)",
+]
+ASSUMPTIONS = ["A6 analytic axioms: sin2_cos2, sin_odd_cos_even, sqrt_def, arcsin_def, arctan2_def, sin_injective_principal, angle_unique, cos_add, half_angle, pi_bounds"]
+
+RAD = "PI / 180"
+REG.inline_ok.add(GM + "inrange")
+
+# ------------------------------------------------------------------ cart <-> geocentric
+c_c2g = contract(GM + "cart2geocentric", prop=P, params=dict(x="real", y="real", z="real"), result=("tuple", 3),
+                 raises=[("x == 0 and y == 0 and z == 0", Exception)],
+                 ensures=["result[0] == sqrt(x**2 + y**2 + z**2)", "result[0] > 0",
+                          "result[1] == arcsin(z / sqrt(x**2 + y**2 + z**2)) * 180 / PI",
+                          "result[2] == arctan2(y, x) * 180 / PI"])
+c_c2g.domain = {"x": (-7e6, 7e6), "y": (-7e6, 7e6), "z": (-7e6, 7e6)}
+c_c2g.canaries = ["result[1] == 0"]
+
+
+@theorem(P, "spherical-roundtrip")
+def thm_roundtrip(r: "real", lat: "real", lon: "real"):
+    requires(r > 0, -90 < lat, lat < 90, -180 < lon, lon <= 180)
+    x, y, z = G.geocentric2cart(r, lat, lon)
+    la, lo = lat * PI / 180, lon * PI / 180
+    ensures(x * x + y * y + z * z == r * r, id="step: |geocentric2cart(r,lat,lon)| == r")
+    r2, lat2, lon2 = G.cart2geocentric(x, y, z)
+    ensures(r2 == r, id="radius recovered")
+    use_axiom("sin_injective_principal", arcsin(z / r2), la)
+    ensures(lat2 == lat, id="latitude recovered")
+    use_axiom("angle_unique", arctan2(y, x), lo)
+    ensures(lon2 == lon, id="longitude recovered")
+
+
+thm_roundtrip.domain = {"r": (1.0, 7e6), "lat": (-89.0, 89.0), "lon": (-179.0, 180.0)}
+
+
+@theorem(P, "spherical-roundtrip-converse")
+def thm_roundtrip2(x: "real", y: "real", z: "real"):
+    requires(x != 0 or y != 0)
+    r, lat, lon = G.cart2geocentric(x, y, z)
+    x2, y2, z2 = G.geocentric2cart(r, lat, lon)
+    rho = sqrt(x * x + y * y)
+    ensures(z2 == z, id="z recovered")
+    ensures(cos(lat * PI / 180) * r == rho, id="step: r cos(lat) == sqrt(x^2 + y^2)")
+    ensures(x2 == x, y2 == y, id="x, y recovered")
+
+
+thm_roundtrip2.domain = {"x": (-7e6, 7e6), "y": (-7e6, 7e6), "z": (-7e6, 7e6)}
+
+# ------------------------------------------------------------------ geodetic -> cartesian, radii of the ellipsoid
+ELL = lambda ctx, n: (ctx.fresh("a", "real"), ctx.fresh("e", "real"))
+c_gd2c = contract(GM + "geodetic2cart", prop=P, params=dict(h="real", lat="real", lon="real", ellipsoid=ELL), result=("tuple", 3),
+                  pure=False,
+                  requires=["ellipsoid[0] > 0", "0 <= ellipsoid[1]", "ellipsoid[1] < 1"],
+                  ensures=["result[0] == (ellipsoid[0] / sqrt(1 - ellipsoid[1]**2 * sin(lat * %s)**2) + h) * cos(lat * %s) * cos(lon * %s)" % (RAD, RAD, RAD),
+                           "result[1] == (ellipsoid[0] / sqrt(1 - ellipsoid[1]**2 * sin(lat * %s)**2) + h) * cos(lat * %s) * sin(lon * %s)" % (RAD, RAD, RAD),
+                           "result[2] == (ellipsoid[0] / sqrt(1 - ellipsoid[1]**2 * sin(lat * %s)**2) * (1 - ellipsoid[1]**2) + h) * sin(lat * %s)" % (RAD, RAD)])
+c_rgd = contract(GM + "ellipsoid_r_geodetic", prop=P, params=dict(ellipsoid=ELL, lat="real"), pure=False, result="real",
+                 requires=["ellipsoid[0] > 0", "0 <= ellipsoid[1]", "ellipsoid[1] < 1"],
+                 ensures=["result > 0",
+                          "result**2 * (1 - ellipsoid[1]**2 * sin(lat * %s)**2) == ellipsoid[0]**2 * "
+                          "((1 - ellipsoid[1]**2)**2 * sin(lat * %s)**2 + cos(lat * %s)**2)" % (RAD, RAD, RAD)])
+c_rgc = contract(GM + "ellipsoid_r_geocentric", prop=P, params=dict(ellipsoid=ELL, lat="real"), pure=False, result="real",
+                 requires=["ellipsoid[0] > 0", "0 <= ellipsoid[1]", "ellipsoid[1] < 1"],
+                 ensures=["result > 0",
+                          "implies(ellipsoid[1] == 0, result == ellipsoid[0])",
+                          "result * sqrt((1 - ellipsoid[1]**2) * cos(lat * %s)**2 + sin(lat * %s)**2) == "
+                          "ellipsoid[0] * sqrt(1 - ellipsoid[1]**2)" % (RAD, RAD)])
+
+
+@theorem(P, "geocentric-radius-on-ellipse", a="real", e="real")
+def thm_ellipse(a, e, lat: "real"):
+    # the point (r cos(lat), r sin(lat)) lies on the ellipse x^2/a^2 + z^2/b^2 == 1 with b^2 = a^2 (1 - e^2)
+    requires(a > 0, 0 <= e, e < 1)
+    r = G.ellipsoid_r_geocentric((a, e), lat)
+    c = 1 - e**2
+    C, S = cos(lat * PI / 180), sin(lat * PI / 180)
+    W, B = sqrt(c * C**2 + S**2), sqrt(c)
+    ensures(c * C**2 + S**2 > 0, id="step: positive radicand")
+    ensures(W * W == c * C**2 + S**2, B * B == c, id="step: squares of the roots")
+    ensures((r * W) * (r * W) == (a * B) * (a * B), id="step: square the contract equation")
+    ensures((r * C)**2 * c + (r * S)**2 == a**2 * c, id="(r cos lat, r sin lat) satisfies the ellipse equation")
+
+
+def _ell_sampler(rng):
+    return dict(ellipsoid=(rng.uniform(1e6, 7e6), rng.choice([0.0, 0.0818191908426, 0.1083, rng.uniform(0, 0.5)])),
+                lat=rng.uniform(-90, 90))
+
+
+c_rgd.sampler = c_rgc.sampler = _ell_sampler
+c_gd2c.sampler = lambda rng: dict(h=rng.uniform(-1e4, 1e6), lat=rng.uniform(-88, 88), lon=rng.uniform(-180, 180),
+                                  ellipsoid=_ell_sampler(rng)["ellipsoid"])
+
+
+@theorem(P, "points-on-ellipsoid", a="real", e="real")
+def thm_on_ellipsoid(a, e, lat: "real", lon: "real"):
+    requires(a > 0, 0 <= e, e < 1)
+    x, y, z = G.geodetic2cart(0, lat, lon, (a, e))
+    rg = G.ellipsoid_r_geodetic((a, e), lat)
+    s, c = sin(lat * PI / 180), cos(lat * PI / 180)
+    w = sqrt(1 - e**2 * s**2)
+    ensures(1 - e**2 * s**2 > 0, id="step: the denominator is positive")
+    ensures((x * x + y * y + z * z) * (w * w) == a * a * (c * c + (1 - e * e)**2 * s * s), id="step: |geodetic2cart(0,lat,lon)|^2")
+    ensures(x * x + y * y + z * z == rg * rg, id="points with h = 0 have the radius ellipsoid_r_geodetic(lat)")
+
+
+@theorem(P, "spherical-geodetic-is-geocentric", a="real")
+def thm_spherical(a, h: "real", lat: "real", lon: "real"):
+    # e == 0 (SphericalEarth/Venus/Mars/Jupiter): geodetic coordinates are geocentric ones shifted by the radius
+    requires(a > 0, a + h > 0)
+    x, y, z = G.geodetic2cart(h, lat, lon, (a, 0))
+    x2, y2, z2 = G.geocentric2cart(a + h, lat, lon)
+    ensures(x == x2, y == y2, z == z2, id="geodetic2cart(h,..,(a,0)) == geocentric2cart(a+h,..)")
+    ensures(G.ellipsoid_r_geodetic((a, 0), lat) == a, G.ellipsoid_r_geocentric((a, 0), lat) == a, id="radius of a sphere")
+
+
+@theorem(P, "ellipsoid-models")
+def thm_models():
+    m = G.ellipsoidmodels()
+    ensures(sorted(m.models) == ["EllipsoidMars", "SphericalEarth", "SphericalJupiter", "SphericalMars", "SphericalVenus", "WGS84"],
+            id="the six models")
+    ensures(all(m[k][0] > 0 and 0 <= m[k][1] and m[k][1] < 1 for k in m.models), id="radius > 0 and 0 <= e < 1 for every model")
+    ensures([k for k in sorted(m.models) if m[k][1] == 0] == ["SphericalEarth", "SphericalJupiter", "SphericalMars", "SphericalVenus"],
+            id="four models are spheres (closed form applies)")
+
+
+# ------------------------------------------------------------------ distances
+HAV = ("sin((lat2 * %s - lat1 * %s) / 2)**2 + cos(lat1 * %s) * cos(lat2 * %s) * sin((lon2 * %s - lon1 * %s) / 2)**2"
+       % (RAD, RAD, RAD, RAD, RAD, RAD))
+c_gcd = contract(GM + "great_circle_distance", prop=P, params=dict(lat1="real", lon1="real", lat2="real", lon2="real"),
+                 configs=[{"r": None}, {"r": constants.earth_radius}], pure=False, result="real",
+                 ensures=["implies_(r is None, lambda: result == 2 * arcsin(sqrt(%s)) * 180 / PI)" % HAV,
+                          "implies_(r is not None, lambda: result == r * (2 * arcsin(sqrt(%s))))" % HAV],
+                 env={"implies_": lambda c, t: t() if c else True})
+c_gcd.domain = {"lat1": (-90.0, 90.0), "lat2": (-90.0, 90.0), "lon1": (-180.0, 180.0), "lon2": (-180.0, 180.0)}
+c_td = contract(GM + "tunnel_distance", prop=P, params=dict(lat1="real", lon1="real", lat2="real", lon2="real"), pure=False,
+                result=lambda ctx, env: fresh_array_(ctx),
+                ensures=["len(result) == 1",
+                         "result[0]**2 == (geocentric2cart(constants.earth_radius, lat2, lon2)[0] - geocentric2cart(constants.earth_radius, lat1, lon1)[0])**2"
+                         " + (geocentric2cart(constants.earth_radius, lat2, lon2)[1] - geocentric2cart(constants.earth_radius, lat1, lon1)[1])**2"
+                         " + (geocentric2cart(constants.earth_radius, lat2, lon2)[2] - geocentric2cart(constants.earth_radius, lat1, lon1)[2])**2"])
+c_td.domain = c_gcd.domain
+
+
+def fresh_array_(ctx):
+    from pyvc.contracts import fresh_array
+    return fresh_array(ctx, "td", (1,))
+
+
+@theorem(P, "great-circle-distance")
+def thm_gcd(lat1: "real", lon1: "real", lat2: "real", lon2: "real", s: "real"):
+    requires(-90 <= lat1, lat1 <= 90, -90 <= lat2, lat2 <= 90)
+    d12 = G.great_circle_distance(lat1, lon1, lat2, lon2)
+    d21 = G.great_circle_distance(lat2, lon2, lat1, lon1)
+    ensures(d12 == d21, id="symmetric")
+    ensures(G.great_circle_distance(lat1, lon1, lat1, lon1) == 0, id="zero for coincident points")
+    ensures(G.great_circle_distance(lat1, lon1 + s, lat2, lon2 + s) == d12, id="invariant under a common shift in longitude")
+
+
+@theorem(P, "great-circle-bound")
+def thm_gcd_bound(lat1: "real", lon1: "real", lat2: "real", lon2: "real"):
+    requires(-90 <= lat1, lat1 <= 90, -90 <= lat2, lat2 <= 90)
+    a1, a2 = lat1 * PI / 180, lat2 * PI / 180
+    dl = (lon2 * PI / 180 - lon1 * PI / 180) / 2
+    hav = sin((a2 - a1) / 2)**2 + cos(a1) * cos(a2) * sin(dl)**2
+    # cos(a1) cos(a2) <= cos^2((a2 - a1)/2): product-to-sum with u = (a1+a2)/2, v = (a2-a1)/2
+    u, v = (a1 + a2) / 2, (a2 - a1) / 2
+    use_axiom("cos_add", u, v)
+    assume(u + v == a2, u - v == a1)
+    ensures(cos(a1) * cos(a2) == cos(u)**2 * cos(v)**2 - sin(u)**2 * sin(v)**2, id="step: product of cosines")
+    ensures(cos(a1) * cos(a2) <= cos(v)**2, id="step: cos(lat1) cos(lat2) <= cos^2(dlat/2)")
+    ensures(0 <= hav, hav <= 1, id="the haversine lies in [0, 1]")
+    d = G.great_circle_distance(lat1, lon1, lat2, lon2)
+    Re = constants.earth_radius
+    dm = G.great_circle_distance(lat1, lon1, lat2, lon2, r=Re)
+    ensures(0 <= d, d <= 180, id="great_circle_distance is at most 180 degrees")
+    ensures(dm <= PI * Re, id="... resp. half the circumference")
+    ensures(4 * Re**2 * hav <= (2 * Re)**2, id="4 R^2 haversine (== chord^2) is at most the squared diameter")
+    ensures(sin(dm / Re / 2)**2 == hav, id="sin^2(arc / 2R) == haversine  (with chord^2 == 4 R^2 haversine: chord == 2 R sin(arc/2))")
+
+
+@theorem(P, "chord-and-arc")
+def thm_chord(lat1: "real", lon1: "real", lat2: "real", lon2: "real"):
+    requires(-90 <= lat1, lat1 <= 90, -90 <= lat2, lat2 <= 90)
+    R = constants.earth_radius
+    a1, a2, o1, o2 = lat1 * PI / 180, lat2 * PI / 180, lon1 * PI / 180, lon2 * PI / 180
+    hav = sin((a2 - a1) / 2)**2 + cos(a1) * cos(a2) * sin((o2 - o1) / 2)**2
+    use_axiom("cos_add", a2, a1)
+    use_axiom("cos_add", o2, o1)
+    use_axiom("half_angle", a2 - a1)
+    use_axiom("half_angle", o2 - o1)
+    t = G.tunnel_distance(lat1, lon1, lat2, lon2)
+    s1, c1, s2, c2 = sin(a1), cos(a1), sin(a2), cos(a2)
+    sl1, cl1, sl2, cl2 = sin(o1), cos(o1), sin(o2), cos(o2)
+    ensures(t[0]**2 == R**2 * ((c2 * cl2 - c1 * cl1)**2 + (c2 * sl2 - c1 * sl1)**2 + (s2 - s1)**2), id="step A: chord^2 from the coordinates")
+    ensures(cos(o2 - o1) == cl2 * cl1 + sl2 * sl1, cos(a2 - a1) == c2 * c1 + s2 * s1, id="step C: cosine of the differences")
+    ensures((c2 * cl2 - c1 * cl1)**2 + (c2 * sl2 - c1 * sl1)**2 + (s2 - s1)**2
+            == 2 - 2 * (c1 * c2) * (cl2 * cl1 + sl2 * sl1) - 2 * s1 * s2, id="step B1: expand with sin^2 + cos^2 == 1")
+    ensures((c1 * c2) * (cl2 * cl1 + sl2 * sl1) == (c1 * c2) * cos(o2 - o1), id="step B2: substitute the cosine of the longitude difference")
+    ensures((c2 * cl2 - c1 * cl1)**2 + (c2 * sl2 - c1 * sl1)**2 + (s2 - s1)**2
+            == 2 - 2 * (c1 * c2) * cos(o2 - o1) - 2 * s1 * s2, id="step B: chord^2 / R^2")
+    ensures(hav == (1 - cos(a2 - a1)) / 2 + (c1 * c2) * (1 - cos(o2 - o1)) / 2, id="step D: haversine by half-angle formulas")
+    ensures(4 * hav == 2 - 2 * (c1 * c2) * cos(o2 - o1) - 2 * s1 * s2, id="step E: 4 haversine")
+    ensures(t[0]**2 == 4 * R**2 * hav, id="chord^2 == 4 R^2 haversine")
+    # together with 'sin^2(arc / 2R) == haversine' (theorem great-circle-bound) this is chord == 2 R sin(arc / 2)
+    # chord at most the diameter: chord^2 == 4 R^2 haversine and haversine <= 1 (theorem great-circle-bound)
+    t21 = G.tunnel_distance(lat2, lon2, lat1, lon1)
+    ensures(t21[0]**2 == t[0]**2, id="tunnel_distance symmetric")
+    ensures(G.tunnel_distance(lat1, lon1, lat1, lon1)[0]**2 == 0, id="zero for coincident points")
